@@ -45,6 +45,23 @@ class Scripted:
         return seq[self._draw(0, len(seq) - 1)]
 
 
+def run_impl_none(k, n, script, none_at):
+    """like run_impl but the observation at position none_at is None (an ordinary object for the library)"""
+    import generatorpipeline.accumulators as A
+    rs = A.ReservoirSampling(length=k)
+    src = Scripted(script)
+    old = A.random
+    A.random = src
+    try:
+        for i in range(n):
+            rs.accumulate(None if i == none_at else ('pos', i))
+    except Exception as e:  # noqa
+        return ['!%s' % type(e).__name__], -1
+    finally:
+        A.random = old
+    return [(none_at if v is None else v[1]) for v in rs.value], rs.n
+
+
 def run_impl(k, n, script):
     import generatorpipeline.accumulators as A
     rs = A.ReservoirSampling(length=k)
@@ -83,6 +100,12 @@ def check(ctx):
         mn, mres = mout[2 * idx].split('|')
         mres = [int(t) for t in mres.split()]
         mranges = [tuple(int(x) for x in t.split(':')) for t in mout[2 * idx + 1].split() if t != '-']
+        if n >= 1:
+            na = rng.randrange(n)
+            res2, cnt2 = run_impl_none(k, n, draws, na)
+            if (res2, cnt2) != (res, cnt):
+                ctx.fail('reservoir-none-observation', 'with None as observation %d the reservoir is %s (n=%s), with an ordinary object %s (n=%s)' % (
+                    na, res2, cnt2, res, cnt), dict(case, none_at=na))
         if (cnt, res) != (int(mn), mres):
             ctx.disagree('reservoir-model-correspondence', case, dict(n=cnt, res=res), dict(n=int(mn), res=mres))
         if [tuple(r) for r in ranges] != mranges:
